@@ -311,11 +311,12 @@ pub fn replicate_request(
                     reclaim_space,
                     db_names,
                 } => {
-                    let db_name = db_name
-                        .clone()
-                        .expect("db_name should be set for snapshot replication");
-                    log::debug!("Will replicate a snapshot to the database {}", db_name);
+                    // The selected database is only needed when the command names no database
                     let db_names = if db_names.is_empty() {
+                        let db_name = db_name
+                            .clone()
+                            .expect("db_name should be set for snapshot replication");
+                        log::debug!("Will replicate a snapshot to the database {}", db_name);
                         vec![db_name.to_string()]
                     } else {
                         db_names
